@@ -21,12 +21,27 @@
      raises ConnectionAccepted, is Connected to the application it asked for, announces its window and chunk size, and the two
      chunk layers are linked again.  The only other outcomes are the declared body-too-large errors (an application name of
      megabytes).  C02_connect_request_delivered / C02_connect_accept_delivered are the two halves with any acknowledgement state.
-   PARTIAL: the message-level protocol of the remaining command phases (createStream / publish / play / stop) is exercised, not proved: the composed model
-   Model/Interop.v (extracted and compared with the two real sessions wired back to back on every case) runs them under
-   byte-wise / fixed / mixed fragmentation with the oracles C02.* on the real events, and scenario_publish / scenario_play
-   are computed instances reaching the states the theorems start from; metadata items are covered by the same runs. *)
+   - C02_publish_completes / C02_play_completes (ProtocolFlow.v): the publish and the play workflow at message level, for every
+     stream key of at most 65000 bytes, every configuration and clock reading, from any connected pair with linked chunk layers:
+     request_publishing / request_playback emits createStream, the server creates a fresh stream and answers under the client's
+     transaction id, the client sends publish (or the buffer length and play) on that stream, the server raises exactly
+     PublishRequested / PlayRequested with the application, the key and the stream, the application's accept produces the status
+     packets, and the client raises PublishAccepted / PlaybackAccepted and ends Publishing / Playing on that stream while the
+     server has it registered under the application and the key - the states C02_publish_sequence / C02_play_sequence start from.
+     Every call of the exchange SUCCEEDS (no hypothesis on outcomes) and raises exactly the events listed; the exact result lists
+     are stated for receiving calls in which no acknowledgement falls due (`quiet`; C17 decides when one does - then one
+     Acknowledgement packet precedes the results, events and states being the same).  Packets are delivered one per input call;
+     C15 for sessions carries events, verdict and state to any other fragmentation.
+   - C02_stop_publishing_raises_finished / C02_stop_playback_raises_finished: stop emits deleteStream for the active stream, the
+     client returns to Connected, and the server raises exactly the matching finished event and forgets the stream.
+   - C02_server_receives_message / C02_client_receives_message: the general step - any message one session sends (Set Chunk Size
+     apart, which C02_link_preserved covers) is handled by the peer's handle_input as exactly that decoded message, after the
+     acknowledgement prelude, with the chunk layers linked again.
+   Exercised, not proved: metadata/media sequences interleaved with commands in one run, rejects and the play-side finish call
+   at the composed level (their per-session behaviour is C09/C10): the composed model
+*)
 From RML Require Import Model.Base Model.Utf8 Model.Float Model.Amf0 Model.Chunk Model.ChunkSer Model.ChunkDe Model.Messages Model.SessionCommon Model.Server Model.Client
-  Model.Interop Proofs.ChunkSerProofs Proofs.InteropProofs Proofs.SessionPartition Proofs.ClientPartition Proofs.InteropPartition Proofs.MetadataProofs Proofs.InteropMetadata Proofs.Transport Proofs.ServerProofs Proofs.SessionFrame Proofs.SessionTrace Proofs.ClientTrace Proofs.SessionTransport Proofs.ProtocolProofs Proofs.FloatProofs.
+  Model.Interop Proofs.ChunkSerProofs Proofs.InteropProofs Proofs.SessionPartition Proofs.ClientPartition Proofs.InteropPartition Proofs.MetadataProofs Proofs.InteropMetadata Proofs.Transport Proofs.ServerProofs Proofs.SessionFrame Proofs.SessionTrace Proofs.ClientTrace Proofs.SessionTransport Proofs.ProtocolProofs Proofs.ProtocolFlow Proofs.FloatProofs Proofs.MessageProofs Proofs.ServerProofs.
 From Coq Require Import String.
 Local Open Scope N_scope.
 
@@ -161,6 +176,144 @@ Theorem C02_connect_completes : forall c s app clock sclock aclock cclock,
     Link (sv_ser s2) (cl_de c2) /\ s_max (cl_ser c2) = cc_chunk (cl_cfg c).
 Proof. exact connect_completes. Qed.
 
+Theorem C02_server_receives_message : forall s ser m ts sid f d b ser' clock,
+  Link ser (sv_de s) -> ser_ok (sv_ser s) -> msg_ok m -> plain m -> ts < 4294967296 -> sid < 4294967296 ->
+  send_message ser m ts sid f d = Ok (b, ser') ->
+  exists p de1 de3 s0 pre,
+    of_payload (m_tid p) (m_data p) = Ok m /\ m_sid p = sid /\ m_ts p = ts /\
+    same_core s s0 /\ sv_de s0 = sv_de s /\ ser_ok (sv_ser s0) /\ events pre = [] /\
+    (quiet (sv_ack s) b -> pre = [] /\ sv_ser s0 = sv_ser s) /\
+    Link ser' de3 /\
+    server_handle_input s b clock =
+      (let '(s1, r) := h_message (upd_de s0 de1) p clock in
+       match r with ROk rs => (upd_de s1 de3, ROk (pre ++ rs)) | _ => (s1, r) end).
+Proof. exact server_receives. Qed.
+
+Theorem C02_client_receives_message : forall c ser m ts sid f d b ser' clock,
+  Link ser (cl_de c) -> ser_ok (cl_ser c) -> msg_ok m -> plain m -> ts < 4294967296 -> sid < 4294967296 ->
+  send_message ser m ts sid f d = Ok (b, ser') ->
+  exists p de1 de3 c0 pre,
+    of_payload (m_tid p) (m_data p) = Ok m /\ m_sid p = sid /\ m_ts p = ts /\
+    (cl_cfg c0 = cl_cfg c /\ cl_next_tr c0 = cl_next_tr c /\ cl_trs c0 = cl_trs c /\ cl_state c0 = cl_state c /\
+     cl_app c0 = cl_app c /\ cl_stream c0 = cl_stream c) /\ cl_de c0 = cl_de c /\ ser_ok (cl_ser c0) /\ cevents pre = [] /\
+    (quiet (cl_ack c) b -> pre = [] /\ cl_ser c0 = cl_ser c) /\
+    Link ser' de3 /\
+    client_handle_input c b clock =
+      (let '(c1, r) := ch_message (cupd_de c0 de1) p clock in
+       match r with COk rs => (cupd_de c1 de3, COk (pre ++ rs)) | _ => (c1, r) end).
+Proof. exact client_receives. Qed.
+
+Theorem C02_publish_completes : forall c s app key t k1 k2 k3 k4 k5 k6 k7,
+  Link (cl_ser c) (sv_de s) -> Link (sv_ser s) (cl_de c) -> ser_ok (cl_ser c) -> ser_ok (sv_ser s) ->
+  cl_state c = Connected -> cl_next_tr c < 4294967296 -> sv_next_stream s < 4294967296 ->
+  sv_connected s = true -> sv_app s = Some app -> utf8_valid key = true -> lenN key <= 65000 ->
+  k1 < 4294967296 -> k2 < 4294967296 -> k3 < 4294967296 -> k5 < 4294967296 ->
+  exists c1 b1 s1 r2,
+    client_request_publishing c key t k1 = (c1, COk [CPacket b1 false]) /\
+    server_handle_input s b1 k2 = (s1, ROk r2) /\ events r2 = [] /\
+  (quiet (sv_ack s) b1 ->
+  exists b2 c2 r3, r2 = [SPacket b2 false] /\
+    client_handle_input c1 b2 k3 = (c2, COk r3) /\ cevents r3 = [] /\
+  (quiet (cl_ack c1) b2 ->
+  exists b3 s2 r4, r3 = [CPacket b3 false] /\
+    server_handle_input s1 b3 k4 = (s2, ROk r4) /\ events r4 = [EvPublishRequested (sv_next_req s) app key (mode_of_type t)] /\
+  (quiet (sv_ack s1) b3 ->
+  r4 = [SEvent (EvPublishRequested (sv_next_req s) app key (mode_of_type t))] /\
+  exists s3 b4 b5, server_accept s2 (sv_next_req s) k5 = (s3, ROk [SPacket b4 false; SPacket b5 false]) /\
+  exists c3 r6, client_handle_input c2 b4 k6 = (c3, COk r6) /\ cevents r6 = [] /\
+  (quiet (cl_ack c2) b4 -> r6 = [] /\
+  exists c4 r7, client_handle_input c3 b5 k7 = (c4, COk r7) /\ cevents r7 = [CPublishAccepted] /\
+  (quiet (cl_ack c3) b5 -> r7 = [CEvent CPublishAccepted] /\
+  publishing_stream c4 = Ok (sv_next_stream s) /\ publishing_key s3 (sv_next_stream s) = Some (app, key) /\
+  Link (cl_ser c4) (sv_de s3) /\ Link (sv_ser s3) (cl_de c4) /\ ser_ok (cl_ser c4) /\ ser_ok (sv_ser s3) /\ sv_connected s3 = true))))).
+Proof. exact publish_completes. Qed.
+
+Theorem C02_play_completes : forall c s app key k1 k2 k3 k4 k5 k6 t1 t2 t3 t4 t5,
+  Link (cl_ser c) (sv_de s) -> Link (sv_ser s) (cl_de c) -> ser_ok (cl_ser c) -> ser_ok (sv_ser s) ->
+  cl_state c = Connected -> cl_next_tr c < 4294967296 -> sv_next_stream s < 4294967296 -> cc_buffer (cl_cfg c) < 4294967296 ->
+  sv_connected s = true -> sv_app s = Some app -> utf8_valid key = true -> lenN key <= 65000 ->
+  k1 < 4294967296 -> k2 < 4294967296 -> k3 < 4294967296 -> k6 < 4294967296 ->
+  exists c1 b1 s1 r2,
+    client_request_playback c key k1 = (c1, COk [CPacket b1 false]) /\
+    server_handle_input s b1 k2 = (s1, ROk r2) /\ events r2 = [] /\
+  (quiet (sv_ack s) b1 ->
+  exists b2 c2 r3, r2 = [SPacket b2 false] /\
+    client_handle_input c1 b2 k3 = (c2, COk r3) /\ cevents r3 = [] /\
+  (quiet (cl_ack c1) b2 ->
+  exists b3 b4 s2 r4, r3 = [CPacket b3 false; CPacket b4 false] /\
+    server_handle_input s1 b3 k4 = (s2, ROk r4) /\ events r4 = [] /\
+  (quiet (sv_ack s1) b3 -> r4 = [] /\
+  exists s3 r5, server_handle_input s2 b4 k5 = (s3, ROk r5) /\
+    events r5 = [EvPlayRequested (sv_next_req s) app key LiveOrRecorded None false (sv_next_stream s)] /\
+  (quiet (sv_ack s2) b4 ->
+  r5 = [SEvent (EvPlayRequested (sv_next_req s) app key LiveOrRecorded None false (sv_next_stream s))] /\
+  exists s4 p1 p2 p3 p4 p5,
+    server_accept s3 (sv_next_req s) k6 = (s4, ROk [SPacket p1 false; SPacket p2 false; SPacket p3 false; SPacket p4 false; SPacket p5 false]) /\
+  exists c3 q1, client_handle_input c2 p1 t1 = (c3, COk q1) /\ cevents q1 = [CUnhandleableStatus (str "NetStream.Play.Reset")] /\
+  (quiet (cl_ack c2) p1 -> q1 = [CEvent (CUnhandleableStatus (str "NetStream.Play.Reset"))] /\
+  exists c4 q2, client_handle_input c3 p2 t2 = (c4, COk q2) /\ cevents q2 = [] /\
+  (quiet (cl_ack c3) p2 -> q2 = [] /\
+  exists c5 q3, client_handle_input c4 p3 t3 = (c5, COk q3) /\ cevents q3 = [CPlaybackAccepted] /\
+  (quiet (cl_ack c4) p3 -> q3 = [CEvent CPlaybackAccepted] /\
+  exists c6 q4, client_handle_input c5 p4 t4 = (c6, COk q4) /\ cevents q4 = [] /\
+  (quiet (cl_ack c5) p4 -> q4 = [] /\
+  exists c7 q5, client_handle_input c6 p5 t5 = (c7, COk q5) /\ cevents q5 = [] /\
+  (quiet (cl_ack c6) p5 -> q5 = [] /\
+  cl_state c7 = Playing /\ playing_on c7 (sv_next_stream s) /\
+  lookup (sv_next_stream s) (sv_streams s4) = Some (StPlaying key) /\ sv_app s4 = Some app /\ sv_connected s4 = true /\
+  Link (cl_ser c7) (sv_de s4) /\ Link (sv_ser s4) (cl_de c7) /\ ser_ok (cl_ser c7) /\ ser_ok (sv_ser s4)))))))))).
+Proof. exact play_completes. Qed.
+
+Theorem C02_stop_publishing_raises_finished : forall c s sid app key mode clock sclock,
+  Link (cl_ser c) (sv_de s) -> ser_ok (cl_ser c) -> ser_ok (sv_ser s) ->
+  cl_state c = Publishing -> cl_stream c = Some sid -> sid < 4294967296 -> clock < 4294967296 ->
+  sv_connected s = true -> sv_app s = Some app -> lookup sid (sv_streams s) = Some (StPublishing key mode) ->
+  exists c1 b s1 r2, client_stop_publishing c clock = (c1, COk [CPacket b false]) /\ cl_state c1 = Connected /\ cl_stream c1 = None /\
+    server_handle_input s b sclock = (s1, ROk r2) /\
+    events r2 = [EvPublishFinished app key] /\ lookup sid (sv_streams s1) = None /\ Link (cl_ser c1) (sv_de s1) /\
+    (quiet (sv_ack s) b -> r2 = [SEvent (EvPublishFinished app key)]).
+Proof. exact stop_publishing_raises_finished. Qed.
+
+Theorem C02_stop_playback_raises_finished : forall c s sid app key clock sclock,
+  Link (cl_ser c) (sv_de s) -> ser_ok (cl_ser c) -> ser_ok (sv_ser s) ->
+  cl_state c = Playing -> cl_stream c = Some sid -> sid < 4294967296 -> clock < 4294967296 ->
+  sv_connected s = true -> sv_app s = Some app -> lookup sid (sv_streams s) = Some (StPlaying key) ->
+  exists c1 b s1 r2, client_stop_playback c clock = (c1, COk [CPacket b false]) /\ cl_state c1 = Connected /\ cl_stream c1 = None /\
+    server_handle_input s b sclock = (s1, ROk r2) /\
+    events r2 = [EvPlayFinished app key] /\ lookup sid (sv_streams s1) = None /\ Link (cl_ser c1) (sv_de s1) /\
+    (quiet (sv_ack s) b -> r2 = [SEvent (EvPlayFinished app key)]).
+Proof. exact stop_playback_raises_finished. Qed.
+
+Example C02_publish_run_example :
+  Link (cl_ser ex_client) (sv_de ex_server) /\ Link (sv_ser ex_server) (cl_de ex_client) /\
+  exists c1 b1 s1 b2 c2 b3 s2 ev s3 b4 b5 c3 c4,
+    client_request_publishing ex_client (str "key") TLive 10 = (c1, COk [CPacket b1 false]) /\
+    server_handle_input ex_server b1 11 = (s1, ROk [SPacket b2 false]) /\ quiet (sv_ack ex_server) b1 /\
+    client_handle_input c1 b2 12 = (c2, COk [CPacket b3 false]) /\ quiet (cl_ack c1) b2 /\
+    server_handle_input s1 b3 13 = (s2, ROk [SEvent ev]) /\ quiet (sv_ack s1) b3 /\
+    ev = EvPublishRequested 1 (str "live") (str "key") PLive /\
+    server_accept s2 1 14 = (s3, ROk [SPacket b4 false; SPacket b5 false]) /\
+    client_handle_input c2 b4 15 = (c3, COk []) /\ quiet (cl_ack c2) b4 /\
+    client_handle_input c3 b5 16 = (c4, COk [CEvent CPublishAccepted]) /\ quiet (cl_ack c3) b5 /\
+    publishing_stream c4 = Ok 1 /\ publishing_key s3 1 = Some (str "live", str "key").
+Proof. exact publish_premises_satisfiable. Qed.
+
+Example C02_play_run_example :
+  exists c1 b1 s1 b2 c2 b3 b4 s2 s3 s4 p1 p2 p3 p4 p5 c3 c4 c5 c6 c7,
+    client_request_playback ex_client (str "key") 10 = (c1, COk [CPacket b1 false]) /\
+    server_handle_input ex_server b1 11 = (s1, ROk [SPacket b2 false]) /\ quiet (sv_ack ex_server) b1 /\
+    client_handle_input c1 b2 12 = (c2, COk [CPacket b3 false; CPacket b4 false]) /\ quiet (cl_ack c1) b2 /\
+    server_handle_input s1 b3 13 = (s2, ROk []) /\ quiet (sv_ack s1) b3 /\
+    server_handle_input s2 b4 14 = (s3, ROk [SEvent (EvPlayRequested 1 (str "live") (str "key") LiveOrRecorded None false 1)]) /\ quiet (sv_ack s2) b4 /\
+    server_accept s3 1 15 = (s4, ROk [SPacket p1 false; SPacket p2 false; SPacket p3 false; SPacket p4 false; SPacket p5 false]) /\
+    client_handle_input c2 p1 16 = (c3, COk [CEvent (CUnhandleableStatus (str "NetStream.Play.Reset"))]) /\ quiet (cl_ack c2) p1 /\
+    client_handle_input c3 p2 17 = (c4, COk []) /\ quiet (cl_ack c3) p2 /\
+    client_handle_input c4 p3 18 = (c5, COk [CEvent CPlaybackAccepted]) /\ quiet (cl_ack c4) p3 /\
+    client_handle_input c5 p4 19 = (c6, COk []) /\ quiet (cl_ack c5) p4 /\
+    client_handle_input c6 p5 20 = (c7, COk []) /\ quiet (cl_ack c6) p5 /\
+    cl_state c7 = Playing /\ cl_stream c7 = Some 1 /\ lookup 1 (sv_streams s4) = Some (StPlaying (str "key")).
+Proof. exact play_premises_satisfiable. Qed.
+
 Example C02_scenario_publish :
   filter is_media_or_lifecycle (server_events_of (ex_run ex_publish_ops)) =
   [ EvConnectionRequested 0 (str "live");
@@ -195,3 +348,9 @@ Print Assumptions C02_metadata_mapping_identity.
 Print Assumptions C02_connect_request_delivered.
 Print Assumptions C02_connect_accept_delivered.
 Print Assumptions C02_connect_completes.
+Print Assumptions C02_server_receives_message.
+Print Assumptions C02_client_receives_message.
+Print Assumptions C02_publish_completes.
+Print Assumptions C02_play_completes.
+Print Assumptions C02_stop_publishing_raises_finished.
+Print Assumptions C02_stop_playback_raises_finished.
